@@ -69,10 +69,40 @@ def bundles_of(scn):
     return "+".join(sorted(set(n["b"] for n in scn.get("nodes", []))))
 
 
+KNOWN_LIVELOCKS = []   # bundle sets of the known page-loop livelocks (from known_findings.json, set by run())
+KNOWN_HANGS = []       # bundle sets (with page= / extra= members) of the known hangs of generated documents
+
+
+def features(scn):
+    fs = set(n["b"] for n in scn.get("nodes") or [])
+    if scn.get("extra", "none") != "none":
+        fs.add("extra=" + scn["extra"])
+    if scn.get("page") in ("zero", "bigmargin"):
+        fs.add("page=" + scn["page"])
+    return fs
+
+
 def rekey(r):
-    """Keys of process-level verdicts (time-out, fatal error) name the input class: the bundles of the document."""
+    """Keys of process-level verdicts (time-out, fatal error) name the running function; a page-loop livelock is named by
+    the bundles of its document (the smallest listed culprit set it contains, else all its bundles)."""
     k = r["key"]
     d = r.get("detail")
+    if k.startswith("C01:page-loop-livelock"):
+        scn = d.get("scenario") if isinstance(d, dict) else None
+        if isinstance(scn, dict) and scn.get("nodes"):
+            bs = set(n["b"] for n in scn["nodes"])
+            for ks in KNOWN_LIVELOCKS:
+                if ks <= bs:
+                    return "C01:page-loop-livelock:" + "+".join(sorted(ks))
+            return "C01:page-loop-livelock:" + "+".join(sorted(bs))
+        return k
+    if k.startswith("timeout:") and isinstance(d, dict) and d.get("nodes") and not k.startswith("timeout:recursion:") and not nested_footnotes(d):
+        # a slow or endless computation has no stable running function: it is named by the features of its document
+        fs = features(d)
+        for ks in KNOWN_HANGS:
+            if ks <= fs:
+                return "C01:hang:doc:" + "+".join(sorted(ks))
+        return "C01:hang:doc:" + "+".join(sorted(fs))
     if k.startswith("timeout:") or k.startswith("fatal:"):
         if isinstance(d, dict) and nested_footnotes(d):
             # (the running function of this unbounded recursion differs from run to run: the finding is named by its input)
@@ -226,12 +256,52 @@ def run(ctx):
 
     # ---- execute + validate
     ctx.rekey = rekey
+    del KNOWN_LIVELOCKS[:]
+    for fk, fv in ctx.findings.items():
+        if fk.startswith("C01:page-loop-livelock:") and fv.get("status") == "known":
+            KNOWN_LIVELOCKS.append(set(fk[len("C01:page-loop-livelock:"):].split("+")))
+    KNOWN_LIVELOCKS.sort(key=len)
+    del KNOWN_HANGS[:]
+    for fk, fv in ctx.findings.items():
+        if fk.startswith("C01:hang:doc:") and fv.get("status") == "known":
+            KNOWN_HANGS.append(set(fk[len("C01:hang:doc:"):].split("+")))
+    KNOWN_HANGS.sort(key=len)
     tot = collections.Counter()
     for name, scn, cnt, args in runs:
         ver = os.path.join(ctx.scratch, "ver_%s.ndjson" % name)
         rec = os.path.join(ctx.scratch, "trace_%s.ndjson" % name)
         # (the quick tier is reproducible: its sampled families do not depend on VERIF_SEED; the thorough tier varies them)
         ctx.vdrive(["c01", "-in", scn, "-out", ver, "-timeout", "30s"] + args, timeout=14000, env=None if thorough else {"VERIF_SEED": "1"})
+        # a time-out under load is not a verdict: every document that timed out is rendered again, alone (one worker per
+        # document, all cores free of other documents), with four times the limit; only if it times out again is it reported
+        tmo_lines = []
+        kept = []
+        with open(ver) as f:
+            for line in f:
+                if '"key":"timeout' in line:
+                    r = json.loads(line)
+                    if r.get("kind") == "disagree" and r["key"].startswith("timeout"):
+                        tmo_lines.append(json.dumps(r["detail"]))
+                        continue
+                kept.append(line)
+        slow = 0
+        if tmo_lines:
+            scn2 = os.path.join(ctx.scratch, "retry_%s.ndjson" % name)
+            ver2 = os.path.join(ctx.scratch, "retryver_%s.ndjson" % name)
+            with open(scn2, "w") as f:
+                f.write("\n".join(tmo_lines) + "\n")
+            a2 = [a for a in args if a not in ("-rotate",)]
+            if "-stride" in a2:
+                k = a2.index("-stride")
+                del a2[k:k + 2]
+            ctx.vdrive(["c01", "-in", scn2, "-out", ver2, "-timeout", "120s", "-j", str(min(8, len(tmo_lines)))] + a2, timeout=14000)
+            again = [l for l in open(ver2) if '"kind":"disagree"' in l]
+            slow = len(tmo_lines) - sum(1 for l in again if '"key":"timeout' in l)
+            with open(ver, "w") as f:
+                f.writelines(kept)
+                f.writelines(again)
+                f.write(json.dumps({"kind": "summary", "counts": {"timeouts": -slow, "slow-but-returning": slow, "scenarios": slow}}) + "\n")
+            tot["slow"] += slow
         # process-level verdicts become trace records too (terminal event Timeout / Fatal)
         extra_recs = []
         abnormal_harness = 0
@@ -297,7 +367,7 @@ def run(ctx):
         cov[name] = {"documents": c.get("documents", 0), "renders": c.get("renders", 0), "pages": c.get("pages", 0), "blank_pages": c.get("blank-pages", 0), "kept_pages": c.get("kept-pages", 0),
                      "repagination_rounds": c.get("repagination-rounds", 0), "refused": c.get("refused", 0), "twin_renders": c.get("twin-renders", 0), "twin_equal": c.get("twin-equal", 0),
                      "trace_records": nrec, "accepted_by_RenderTrace": accepted, "rejected_did_not_return": rejected_abn, "returned_but_outside_the_model": deviations,
-                     "timeouts": c.get("timeouts", 0), "process_deaths": c.get("fatals", 0), "panics": sum(v for kk, v in summ.get("per_key", {}).items() if kk.startswith("C01:panic"))}
+                     "timeouts": c.get("timeouts", 0), "slow_but_returning": c.get("slow-but-returning", 0), "process_deaths": c.get("fatals", 0), "panics": sum(v for kk, v in summ.get("per_key", {}).items() if kk.startswith("C01:panic"))}
         for kk in ("documents", "renders", "pages", "twin-renders"):
             tot[kk] += c.get(kk, 0)
         tot["records"] += nrec
